@@ -27,7 +27,7 @@ def build_cases(tier, seed):
         if i % 6 == 5:
             prof["network"] = "grid"
         ctrl = BUILTIN if i % 3 == 0 else hostile_stack(p=[0.2, 0.4][i % 2], builtin=True)
-        cases.append(trace_case("C10", i, s, prof, ctrl, steps, ["C10"], opts=({"inject_requests": {"every": 6, "public": i % 10 == 7}} if i % 5 == 2 else {})))
+        cases.append(trace_case("C10", i, s, prof, ctrl, steps, ["C10"], opts=({"inject_requests": {"every": 6, "public": i % 10 == 7}} if i % 5 == 2 else {"cosim_ops": {"every": 3, "kinds": ["change_membership"]}} if i % 5 == 3 and prof["fleets"] else {})))
     cases += systematic_cases("C10", tier, seed)
     if tier == "thorough":
         cases.append(shipped_case("C10", "denver_downtown/denver_demo_fleets.yaml", 700, ["C10"], tag="b"))
